@@ -103,7 +103,7 @@ theorem fmix32_eq (h : UInt32) : fmix32 h m32Fmix = Spec.fmix32 h := by
   rfl
 
 theorem murmur32_main (data : Bytes) (nbytes : Nat) (h0 : 0 < nbytes) (hle : nbytes ≤ data.length)
-    (hb : nbytes < 2 ^ 33) :
+    (hb : nbytes < 2 ^ 31) :
     qhashmurmur3_32 data nbytes = .ok (Spec.murmur3_x86_32 0 (data.take nbytes)) := by
   have hc := covers_take hle
   have hD : (data.take nbytes).length = nbytes := by simp [List.length_take, Nat.min_eq_left hle]
@@ -224,7 +224,7 @@ theorem fmix64_eq2 (h : UInt64) : fmix64 h m128Fmix2 = Spec.fmix64 h := by
   rfl
 
 theorem murmur128_main (data : Bytes) (nbytes : Nat) (h0 : 0 < nbytes) (hle : nbytes ≤ data.length)
-    (hb : nbytes < 2 ^ 35) :
+    (hb : nbytes < 2 ^ 31) :
     qhashmurmur3_128 data nbytes = .ok (some (Spec.murmur3_x64_128 0 (data.take nbytes))) := by
   have hc := covers_take hle
   have hD : (data.take nbytes).length = nbytes := by simp [List.length_take, Nat.min_eq_left hle]
